@@ -136,6 +136,8 @@ class Sim:
             self.log("tx", ep.idx, serial, self.now, data.hex(), err)
             if err is not None:
                 self.count("fault.send-errno")
+                if getattr(self, "on_send_failed", None) is not None:
+                    self.on_send_failed(ep, serial, data)
                 raise OSError(err, "injected send error")
             if self.on_send is not None:
                 self.on_send(ep, serial, data)
